@@ -14,11 +14,11 @@ LEVEL = 'exploration'
 RULE = ('Operation histories over Cache()/Cache(file)/Population (set, get, get_identity, reset, delete, active, '
         'entities, subjects, add_information_about_person, stale_sources_for_person, remove_person, clock advance); '
         'generated: Hypothesis lists of 1..40 ops over a pool of name ids differing in exactly one field; '
-        'exhaustive: every sequence up to the stated length over 2 subjects x 2 sources x 3 expiries. '
+        'exhaustive: every sequence up to the stated length over 2 subjects x 2 sources x 3 expiries; expiry-instant: expiry stored as int / xs:dateTime string / struct_time (alone and pairwise) x query at T-2..T+2 incl. T itself x backend, all accessors. '
         'Non-trivial = history contains a read after an expiry/reset/delete or touches two subjects; '
         'distinct = distinct history (hash of the op list).')
 ASSUMPTIONS = ['frozen clock by rebinding module globals time/datetime in saml2_tophat modules (DESIGN 2.4)',
-               'instants exactly equal to an expiry are never generated (expiries odd, clock even)',
+               'in histories instants exactly equal to an expiry are never generated (expiries odd, clock even); the expiry-instant part queries at the instant itself and there only requires that all accessors and all representations of that instant agree',
                'reference model transcribes the C19 statement; exceptions on unknown subject/source are allowed, '
                'any returned value is compared exactly']
 
@@ -344,6 +344,90 @@ def run_history(case, backends=('mem', 'file')):
     return label, nontrivial
 
 
+# ------------------------------------------------------------------ the expiry instant itself, and the representation of the expiry
+REPS = ['int', 'str', 'struct_time']
+
+
+def _rep(exp, rep):
+    import time as _t
+    if rep == 'int':
+        return exp
+    if rep == 'str':
+        return _t.strftime('%Y-%m-%dT%H:%M:%SZ', _t.gmtime(exp))
+    return _t.gmtime(exp)
+
+
+def instant_cases():
+    out = []
+    for backend in ('mem', 'file'):
+        for reps in [(r,) for r in REPS] + [(a, b) for a in REPS for b in REPS if a != b]:
+            for off in (-1, 0, 1):
+                for later in (0, 1, 2):         # the query happens `later` seconds after the store
+                    out.append({'backend': backend, 'reps': list(reps), 'off': off, 'later': later})
+    return out
+
+
+def run_instant(case):
+    """One subject, one source per expiry representation, all expiring at the same instant T = store time + off; queried at store time + later.
+    Away from T the statement decides (expired iff now > T ... strictly before / after T).  At now == T the statement leaves the verdict open, but one source at
+    one instant is either expired or not: every accessor and every representation of the same instant must give the same verdict."""
+    import os
+    from saml2_tophat.cache import Cache
+    from saml2_tophat.population import Population
+    clock.install()
+    _SUBJ[0] = None
+    t0 = BASE
+    clock.set_now(t0)
+    if case['backend'] == 'mem':
+        c = Cache()
+    else:
+        fn = os.path.join(os.getcwd(), 'cache-instant-%d.db' % os.getpid())
+        for ext in ('', '.db', '.dat', '.dir', '.bak'):
+            try:
+                os.unlink(fn + ext)
+            except OSError:
+                pass
+        c = Cache(fn)
+    pop = Population(c)
+    T = t0 + case['off']
+    try:
+        for i, rep in enumerate(case['reps']):
+            info = {'ava': {'src%d' % i: ['v%d' % i]}, 'marker': 'm%d' % i, 'name_id': _nid(0)}
+            c.set(_nid(0), SOURCES[i], info, _rep(T, rep))
+        now = t0 + case['later']
+        clock.set_now(now)
+        verdicts = {}
+        for i, rep in enumerate(case['reps']):
+            src = SOURCES[i]
+            g = _outcome(lambda: c.get(_nid(0), src, True))
+            ident, old = c.get_identity(_nid(0), None, True)
+            v = {'get': g[0] == 'ok' and bool(g[1]), 'identity-contributes': ('src%d' % i) in ident, 'identity-not-listed-old': src not in old,
+                 'active': bool(c.active(_nid(0), src)), 'not-stale': src not in pop.stale_sources_for_person(_nid(0))}
+            if g[0] == 'exc' and g[1] != 'ToOld':
+                raise Violation('get-raises', 'get raised %s for a stored source (expiry as %s)' % (g[1], rep))
+            unchecked = _outcome(lambda: c.get(_nid(0), src, False))
+            if unchecked[0] != 'ok' or not unchecked[1] or unchecked[1].get('marker') != 'm%d' % i:
+                raise Violation('get-unchecked-wrong', 'get without expiry checking returned %r (expiry as %s)' % (unchecked, rep))
+            verdicts[rep] = v
+            if len(set(v.values())) != 1:
+                raise Violation('accessors-disagree-at-one-instant', 'expiry %s stored as %s, queried at T%+d: the accessors disagree whether the source is expired: %r (True = treated as fresh)'
+                                % ('T', rep, now - T, v))
+            fresh = list(v.values())[0]
+            if now > T and fresh:
+                raise Violation('expired-treated-as-fresh', 'expiry stored as %s passed %d s ago, source treated as fresh' % (rep, now - T))
+            if now < T and not fresh:
+                raise Violation('fresh-treated-as-expired', 'expiry stored as %s is %d s ahead, source treated as expired' % (rep, T - now))
+        if len(set(tuple(sorted(v.items())) for v in verdicts.values())) != 1:
+            raise Violation('representations-disagree', 'the same expiry instant stored as %r, queried at T%+d, is judged differently: %r' % (case['reps'], now - T, verdicts))
+    finally:
+        if case['backend'] == 'file':
+            try:
+                c._db.close()
+            except Exception:
+                pass
+    return 'T%+d|%s' % (now - T, '+'.join(case['reps'])), True
+
+
 def _raise(b, m):
     raise Violation(b, m)
 
@@ -464,4 +548,5 @@ def parts(tier):
         Part('exhaustive', lambda c: run_history(c, ('mem',)),
              cases=lambda: Sequences(3 if quick else 4), exhaustive=True, distinct_by_construction=True),
         Part('shaped', lambda c: run_history(c, ('mem',)), cases=lambda: Shaped(), exhaustive=True, distinct_by_construction=True),
+        Part('expiry-instant', run_instant, cases=instant_cases, exhaustive=True),
     ]
